@@ -1191,6 +1191,9 @@ fn verif_chunks_map_collect<T, F: FnMut(&[u8]) -> T>(s: &[u8], n: usize, f: F) -
     ensures
         //# C13,C20.new_rejects_invalid_header
         !hdr_valid((*old(reader)).rem()) ==> res is Err,
+        //# C13,C18.new_establishes_representation_invariant
+        // (the invariant Cfb::get_stream requires holds for EVERY container Cfb::new returns, not only for well-formed input)
+        res matches Ok(c) ==> c.wf(),
         //# C13,C20,C02,C18.new_parses_container
         // (`len` is the length of the input, as every caller passes it; it bounds the DIFAT walk)
         forall|fuel: nat| #[trigger] cfb_parse((*old(reader)).rem(), fuel) is Some && len as int >= (*old(reader)).rem().len() ==> (match res {
